@@ -39,19 +39,22 @@ func DepPath(comps ...string) string { return WorldMod + "/" + strings.Join(comp
 
 func (w *World) AddDep(p Pkg) error {
 	if old, ok := w.Deps[p.Path]; ok {
-		if old.Name != p.Name {
+		if old.Name != p.Name || old.Extra != p.Extra {
 			return fmt.Errorf("dependency %s declared with names %s and %s", p.Path, old.Name, p.Name)
 		}
 		return nil
 	}
 	w.Deps[p.Path] = p
 	rel := strings.TrimPrefix(p.Path, WorldMod+"/")
-	return core.WriteFile(filepath.Join(w.Dir, filepath.FromSlash(rel), "dep.go"), []byte(DepSource(p.Name)))
+	return core.WriteFile(filepath.Join(w.Dir, filepath.FromSlash(rel), "dep.go"), []byte(DepSource(p.Name)+p.Extra))
 }
 
 // AddSrc writes a source package under src/<dirname>.
 func (w *World) AddSrc(s *SrcPkg, dirname string) error {
-	s.Dir = filepath.Join(w.Dir, "src", dirname)
+	if s.SubDir != "" {
+		dirname += "/" + s.SubDir
+	}
+	s.Dir = filepath.Join(w.Dir, "src", filepath.FromSlash(dirname))
 	s.Path = WorldMod + "/src/" + dirname
 	for _, p := range s.Pkgs {
 		if strings.HasPrefix(p.Path, WorldMod+"/") {
